@@ -197,6 +197,7 @@ pub fn plan_to_json(p: &Plan) -> Value {
         "swake_pm": p.swake_pm,
         "batch_pm": p.batch_pm,
         "cancel_at": p.cancel_at,
+        "stuck": p.stuck.iter().map(|(e, o)| json!([e, o])).collect::<Vec<_>>(),
     })
 }
 
@@ -233,6 +234,11 @@ pub fn plan_from_json(v: &Value) -> Plan {
     p.swake_pm = v["swake_pm"].as_u64().unwrap_or(0) as u32;
     p.batch_pm = v["batch_pm"].as_u64().unwrap_or(0) as u32;
     p.cancel_at = v["cancel_at"].as_u64().map(|x| x as u32);
+    if let Some(a) = v["stuck"].as_array() {
+        for x in a {
+            p.stuck.insert((x[0].as_u64().unwrap_or(0) as u32, x[1].as_u64().unwrap_or(0) as u32));
+        }
+    }
     p
 }
 
@@ -462,6 +468,9 @@ fn record_stats(st: &mut Stats, prog: &Prog, kind: Kind, plan: &Plan, strat: Str
     }
     if ev.obs.outcome == Outcome::Cancelled {
         Stats::bump(f, "F-cancel", 1);
+    }
+    if !plan.stuck.is_empty() {
+        Stats::bump(f, "F-stuck", 1);
     }
     if plan.input_seed != 0 {
         Stats::bump(f, "F-input", 1);
@@ -693,6 +702,24 @@ fn plans_for(mode: PlanMode, check: &str, prog: &Prog, kind: Kind, b: Budget, se
                     // failure check, so a panic must surface even when another branch of that step fails: combine
                     // the panic with one failing position (whether the panic is still reached is decided by the
                     // reference model). Not for the async kinds, where try_join! may legitimately return first.
+                    // async kinds: a sibling branch of the panicking one stays pending forever (F-stuck). join!/try_join!
+                    // poll the panicking branch anyway, so the panic must still surface; an expansion that first waits for
+                    // all branches of the step leaves the caller blocked (observed as a hang).
+                    if kind.is_async() && !e.tag.is_empty() && e.tag[0].branch != crate::core::CALLER {
+                        let sib: Vec<(u32, u32)> = r0
+                            .events
+                            .iter()
+                            .filter(|x| x.gate && !x.tag.is_empty() && x.tag[0].inv == e.tag[0].inv && x.tag[0].inst == e.tag[0].inst && x.tag[0].step == e.tag[0].step
+                                && x.tag[0].branch != e.tag[0].branch && x.tag[0].branch != crate::core::CALLER)
+                            .map(|x| (x.ev, x.occ))
+                            .collect();
+                        if !sib.is_empty() {
+                            let mut p3 = base.clone();
+                            p3.panic = Some((e.ev, e.occ));
+                            p3.stuck.insert(*rng.pick(&sib));
+                            out.push(p3);
+                        }
+                    }
                     if kind.is_try() && !kind.is_async() {
                         let pos = plans::failable_positions(prog, &r0);
                         let cands: Vec<(u32, u32)> = pos.iter().copied().filter(|q| *q != (e.ev, e.occ)).collect();
@@ -790,6 +817,11 @@ pub fn minimise(check: &str, prog: &Prog, f: &mut Failure) -> (Eval, u32) {
     for pos in f.plan.fail.clone() {
         let mut c = f.plan.clone();
         c.fail.remove(&pos);
+        try_plan!(c);
+    }
+    if !f.plan.stuck.is_empty() {
+        let mut c = f.plan.clone();
+        c.stuck.clear();
         try_plan!(c);
     }
     if f.plan.input_seed != 0 {
